@@ -10,6 +10,7 @@ pub mod model;
 pub mod gen;
 pub mod tape;
 pub mod props;
+pub mod fuzz;
 
 #[global_allocator]
 static GLOBAL: alloc::Counting = alloc::Counting;
